@@ -633,6 +633,8 @@ class eval_abs(object):
                         ee = expr_simp(ee)
                         out.append((ee, 0, ee.get_size()))
                 if out:
+                    # rest_slice walks the pieces in ascending position
+                    out = sorted(out, key=lambda x:x[1])
                     missing_slice = self.rest_slice(out, 0, a.get_size())
                     for sa, sb in missing_slice:
                         ptr = expr_simp(a_val + ExprInt32(sa/8))
